@@ -15,8 +15,10 @@ import (
 // C15 — token lifetime is enforced and the call cache never changes outcomes.
 
 type c15Step struct {
-	Slot  int `json:"slot"`  // probe time: the slot-th half-second window after init
-	Route int `json:"route"` // instance whose fresh cursor carries the script forward
+	Slot  int   `json:"slot"`  // probe time: the slot-th half-second window after init
+	Route int   `json:"route"` // instance whose fresh cursor carries the script forward
+	Probe []int `json:"probe"` // instances the continuation is presented to (Route is always among them); others meet the stream later, with a later cursor
+	Evict []int `json:"evict"` // instances that serve an unrelated stream's /init first (evicts a 1-entry cache)
 }
 
 type c15Script struct {
@@ -47,7 +49,16 @@ func genC15(t *rapid.T) c15Case {
 			if slot > s.TTL*2+3 {
 				break
 			}
-			s.Steps = append(s.Steps, c15Step{Slot: slot, Route: rapid.IntRange(0, ninst-1).Draw(t, "route")})
+			st := c15Step{Slot: slot, Route: rapid.IntRange(0, ninst-1).Draw(t, "route")}
+			for j := 0; j < ninst; j++ {
+				if j == st.Route || rapid.IntRange(0, 2).Draw(t, "probe") != 0 {
+					st.Probe = append(st.Probe, j)
+				}
+				if rapid.IntRange(0, 4).Draw(t, "evict") == 0 {
+					st.Evict = append(st.Evict, j)
+				}
+			}
+			s.Steps = append(s.Steps, st)
 		}
 		c.Scripts = append(c.Scripts, s)
 	}
@@ -123,10 +134,19 @@ func runScript(idx int, s c15Script) (r c15Result) {
 		callFresh := now.Sub(time.Unix(callCreated, 0)) <= ttl
 		cursorFresh := now.Sub(time.Unix(cursorCreated, 0)) <= ttl
 		want := callFresh && cursorFresh
+		probe := st.Probe
+		if len(probe) == 0 {
+			probe = []int{st.Route}
+		}
+		for _, j := range st.Evict {
+			other := lib.CallSpec{Kind: "stream", Method: "s_exch", CancelAt: -1, Stream: &lib.StreamScript{ID: id + "-other", InitOutcome: "ok"}}
+			lib.HTTPInit(handlers[j%len(handlers)], "", other, nil)
+		}
 		decisions := make([]bool, len(handlers))
 		fresh := make([]string, len(handlers))
 		begin := time.Now()
-		for i, h := range handlers {
+		for _, i := range probe {
+			h := handlers[i]
 			x := lib.HTTPContinue(h, "", "s_exch", lib.Int64Batch(lib.InSchema, 1), cursor, init.CallToken, nil, nil)
 			if x.Resp.Panic != "" {
 				violate("C15/panic", "probe panicked: %s", lib.Short(x.Resp.Panic, 200))
@@ -141,32 +161,33 @@ func runScript(idx int, s c15Script) (r c15Result) {
 		}
 		if !callFresh {
 			r.labels = append(r.labels, "probe-after-call-expiry")
-			for i := range handlers {
+			for _, i := range probe {
 				if seen[i] {
 					r.nontrivial = true
 				}
 			}
 		}
-		for i := range handlers {
-			if decisions[i] != decisions[0] {
-				violate("C15/instances-disagree", "at +%.1fs (call token age %.1fs, cursor age %.1fs) instances decide %v (caches %v, instances that saw the stream before: %v)",
-					now.Sub(t0).Seconds(), now.Sub(time.Unix(callCreated, 0)).Seconds(), now.Sub(time.Unix(cursorCreated, 0)).Seconds(), decisions, s.Caches, seen)
+		first := probe[0]
+		for _, i := range probe {
+			if decisions[i] != decisions[first] {
+				violate("C15/instances-disagree", "at +%.1fs (call token age %.1fs, cursor age %.1fs) probed instances %v decide %v (caches %v, instances that saw the stream before: %v)",
+					now.Sub(t0).Seconds(), now.Sub(time.Unix(callCreated, 0)).Seconds(), now.Sub(time.Unix(cursorCreated, 0)).Seconds(), probe, decisions, s.Caches, seen)
 				return
 			}
 		}
-		if decisions[0] != want {
+		if decisions[first] != want {
 			key := "C15/expired-token-accepted"
 			if want {
 				key = "C15/fresh-token-refused"
 			}
 			violate(key, "at +%.1fs call token age %.1fs cursor age %.1fs: all instances decide %v, expected %v",
-				now.Sub(t0).Seconds(), now.Sub(time.Unix(callCreated, 0)).Seconds(), now.Sub(time.Unix(cursorCreated, 0)).Seconds(), decisions[0], want)
+				now.Sub(t0).Seconds(), now.Sub(time.Unix(callCreated, 0)).Seconds(), now.Sub(time.Unix(cursorCreated, 0)).Seconds(), decisions[first], want)
 			return
 		}
-		for i := range handlers {
+		for _, i := range probe {
 			seen[i] = true
 		}
-		if !decisions[0] {
+		if !decisions[first] {
 			r.labels = append(r.labels, "refused")
 			break
 		}
